@@ -283,6 +283,12 @@ func (s *Session) Read(b []byte) (n int, err error) {
 			// Wait for incoming segments to fill the recvQueue.
 			select {
 			case <-s.closedChan:
+				if s.recvQueue.Len() > 0 {
+					// Segments were queued after the emptiness test above
+					// and before the session was closed. Deliver them
+					// before reporting the end of the stream.
+					continue
+				}
 				return 0, io.EOF
 			case <-s.inputErr:
 				return 0, io.ErrUnexpectedEOF
